@@ -52,3 +52,5 @@ def run(ctx):
     if ctx.tier == "thorough":
         e7.check_fn(ctx, ctx.crate("dbg"), "nested::Layer::from_ring", "exact-integer-sqrt[dbg]")
     ctx.not_decided("bijectivity and ring ordering of to_ring/from_ring (quadratic integer arithmetic over depth-dependent shifts: out of reach without a solver)")
+    from rules import controls
+    controls.isqrt_controls(ctx)
